@@ -132,6 +132,14 @@ CHECKS.update({
    ref="DESIGN.md §4 C15"),
 })
 
+CHECKS.update({
+ "C05": dict(
+   technique="property-based testing (proptest): model-based oracle (each version's mappings derived by generated edit scripts; files are harness-written diffs between the models), metamorphic relation over file-creation order, negative predicates for malformed directories",
+   text="Generated-input exploration: rooted version graphs (chains, trees, diamonds, client~server names) whose per-version mappings derive from their parents by generated edit scripts are written as root .tiny + parent#child .tinydiff files in two generated creation orders on tmpfs; /repo/src/version_graph.rs (compiled into the harness unchanged) must find every version under its name / both halves and report exactly extend(model of that version); malformed directories (no root, two roots, cycles, unreachable and unknown versions) must be refused. Holds on everything explored.",
+   note="Trusted: harness mapping model, diff/extend references (C04/C11's), harness tiny/tinydiff writers. Listing orders other than what tmpfs yields for the generated creation orders are not reachable without owning read_dir.",
+   ref="DESIGN.md §4 C05"),
+})
+
 NOT_YET = {
 }
 
